@@ -20,12 +20,18 @@ V = os.path.dirname(os.path.dirname(os.path.abspath(__file__)))
 def run_variant(path, repo, binary, keep=False):
     spec = json.load(open(path))
     name = os.path.relpath(path, os.path.join(V, "checker/selftest/variants"))
-    edits = spec.get("edits") or [{"file": spec["file"], "old": spec["old"], "new": spec["new"]}]
+    edits = spec.get("edits") or ([{"file": spec["file"], "old": spec["old"], "new": spec["new"]}] if spec.get("file") else [])
     scratch_root = os.environ.get("TMPDIR", "/var/tmp")
     d = tempfile.mkdtemp(prefix="grpchan-verif.", dir=scratch_root)
     try:
         dst = os.path.join(d, "repo")
         subprocess.check_call(["rsync", "-a", "--exclude", ".git", repo.rstrip("/") + "/", dst + "/"])
+        if spec.get("patch"):
+            # a kept refactoring (relative to /verif) is applied first; the edits then break (or keep) the refactored form
+            pp = os.path.join(V, spec["patch"])
+            r = subprocess.run(["git", "apply", "--whitespace=nowarn", pp], cwd=dst, capture_output=True, text=True)
+            if r.returncode != 0:
+                return (name, "SKIP", "patch %s no longer applies (tree moved on)" % spec["patch"])
         for e in edits:
             fp = os.path.join(dst, e["file"])
             s = open(fp).read()
